@@ -30,10 +30,18 @@ func main() { hc.Main("C12", run) }
 const pageW, pageH = 200.0, 150.0
 
 // call is one recorded Renderer.RenderPath call.
+const (
+	kDraw  = 0
+	kImage = 1 // RenderImage(img, m)
+	kPage  = 2 // PDF.NewPage (other back-ends have one page: ignored there)
+)
+
 type call struct {
 	path  *canvas.Path
 	style canvas.Style
 	m     canvas.Matrix
+	kind  int
+	img   image.Image
 }
 
 type recorder struct{ calls []call }
@@ -41,10 +49,12 @@ type recorder struct{ calls []call }
 func (r *recorder) Size() (float64, float64) { return pageW, pageH }
 func (r *recorder) RenderPath(p *canvas.Path, s canvas.Style, m canvas.Matrix) {
 	s.Dashes = append([]float64{}, s.Dashes...)
-	r.calls = append(r.calls, call{p.Copy(), s, m})
+	r.calls = append(r.calls, call{path: p.Copy(), style: s, m: m})
 }
 func (r *recorder) RenderText(*canvas.Text, canvas.Matrix) {}
-func (r *recorder) RenderImage(image.Image, canvas.Matrix) {}
+func (r *recorder) RenderImage(img image.Image, m canvas.Matrix) {
+	r.calls = append(r.calls, call{kind: kImage, img: img, m: m})
+}
 
 // ---- generator ---------------------------------------------------------------------------------
 
@@ -61,6 +71,21 @@ var palette = []color.RGBA{
 type gen struct {
 	c     *hc.Ctx
 	grads []canvas.Gradient
+	imgs  []image.Image
+}
+
+func newImages() []image.Image {
+	var out []image.Image
+	for k, sz := range [][2]int{{4, 3}, {2, 2}} {
+		im := image.NewRGBA(image.Rect(0, 0, sz[0], sz[1]))
+		for y := 0; y < sz[1]; y++ {
+			for x := 0; x < sz[0]; x++ {
+				im.SetRGBA(x, y, color.RGBA{uint8(40 * x), uint8(60 * y), uint8(100 * k), 255})
+			}
+		}
+		out = append(out, im)
+	}
+	return out
 }
 
 func (g *gen) paint() canvas.Paint {
@@ -180,6 +205,18 @@ func (g *gen) program() []call {
 			ctx.SetView(v)
 			c.Count("view:" + name)
 		}
+		if 0 < i && c.Chance(0.12) {
+			// an image between path draws: the back-ends bracket it in save/restore
+			ctx.DrawImage(float64(c.Intn(40)), float64(c.Intn(30)), g.imgs[c.Intn(len(g.imgs))], canvas.DPMM(float64(1+c.Intn(3))))
+			c.Count("item:image")
+		}
+		if 0 < i && c.Chance(0.07) {
+			rec.calls = append(rec.calls, call{kind: kPage})
+			c.Count("item:new-page")
+			if c.Chance(0.6) {
+				ctx.SetFill(canvas.Paint{Gradient: g.grads[c.Intn(len(g.grads))]}) // reuse a gradient on the new page
+			}
+		}
 		kinds := []string{"L", "LZ", "LQC", "LQCA", "LQCAZ", "A"}[c.Intn(6)]
 		p := c.GenPath(kinds, 5, 2)
 		if c.Chance(0.15) {
@@ -191,6 +228,10 @@ func (g *gen) program() []call {
 	}
 	var out []call
 	for _, cl := range rec.calls {
+		if cl.kind != kDraw {
+			out = append(out, cl)
+			continue
+		}
 		if cl.style.DashOffset < 0 && len(cl.style.Dashes) == 0 && cl.style.HasStroke() {
 			c.Count("negative-offset-without-dashes")
 		}
@@ -340,6 +381,9 @@ func dict(calls []call, dec func(float64) string) string {
 	add(0)
 	add(1)
 	for _, cl := range calls {
+		if cl.kind != kDraw {
+			continue
+		}
 		s := cl.style
 		scale := math.Sqrt(math.Abs(cl.m.Det()))
 		for _, w := range []float64{s.StrokeWidth, s.StrokeWidth * scale} {
@@ -408,9 +452,16 @@ func progLine(tag string, calls []call, grads []canvas.Gradient, dec func(float6
 	sb.WriteString(tag + " " + dict(calls, dec))
 	fmt.Fprintf(&sb, " %d", len(calls))
 	for i, cl := range calls {
+		if cl.kind == kImage {
+			sb.WriteString(" I")
+			continue
+		} else if cl.kind == kPage {
+			sb.WriteString(" N")
+			continue
+		}
 		s := cl.style
 		m := cl.m
-		fmt.Fprintf(&sb, " %s %s %s %d %s %s %d", paintTok(s.Fill, grads), paintTok(s.Stroke, grads), hc.H(s.StrokeWidth),
+		fmt.Fprintf(&sb, " D %s %s %s %d %s %s %d", paintTok(s.Fill, grads), paintTok(s.Stroke, grads), hc.H(s.StrokeWidth),
 			capCode(s.StrokeCapper), joinTok(s.StrokeJoiner), hc.H(s.DashOffset), len(s.Dashes))
 		for _, d := range s.Dashes {
 			sb.WriteString(" " + hc.H(d))
@@ -424,25 +475,64 @@ func progLine(tag string, calls []call, grads []canvas.Gradient, dec func(float6
 
 // ---- replay on the real back-ends --------------------------------------------------------------
 
+// pageRes is what a page's resource dictionary offers, snapshot when the page is finished.
+type pageRes struct {
+	ext      map[string][2]float64
+	patterns []pdf.VerifC12Pattern
+	xobjects []string
+}
+
 type replay struct {
 	segs   [][]byte // bytes emitted by each call
 	all    []byte   // the whole content / program / document
+	prefix []byte   // PDF: content of the first page before the first call
 	panics []string // panic message per call ("" if none)
 	pdf    *pdf.PDF
 	closeP string // panic or error of Close
+	// PDF only
+	pageOf []int                    // page index of each call
+	pages  []pageRes                // resources per page
+	cache  []pdf.VerifC12CacheState // the writer's cached graphics state after each call
+}
+
+func snapPage(r *pdf.PDF) pageRes {
+	return pageRes{pdf.VerifC12ExtGState(r), pdf.VerifC12Patterns(r), pdf.VerifC12XObjects(r)}
 }
 
 func replayPDF(calls []call) *replay {
 	buf := &bytes.Buffer{}
 	r := pdf.New(buf, pageW, pageH, &pdf.Options{Compress: false, SubsetFonts: true, ImageEncoding: canvas.Lossless})
 	rp := &replay{pdf: r}
+	rp.prefix = append([]byte{}, pdf.VerifC12Content(r)...)
+	page := 0
 	for _, cl := range calls {
+		if cl.kind == kPage {
+			rp.pages = append(rp.pages, snapPage(r))
+			page++
+			r.NewPage(pageW, pageH)
+			rp.panics = append(rp.panics, "")
+			rp.segs = append(rp.segs, append([]byte{}, pdf.VerifC12Content(r)...)) // the new page's initial cm
+			rp.pageOf = append(rp.pageOf, page)
+			rp.cache = append(rp.cache, pdf.VerifC12Cache(r))
+			continue
+		}
 		before := len(pdf.VerifC12Content(r))
-		msg := hc.Try(func() { r.RenderPath(cl.path.Copy(), cl.style, cl.m) })
-		if msg != "" && debugPanics { println("PANIC:", msg, cl.path.String(), joinTok(cl.style.StrokeJoiner), cl.style.StrokeWidth, fmt.Sprint(cl.style.Dashes, cl.style.DashOffset, cl.m)) }
+		msg := hc.Try(func() {
+			if cl.kind == kImage {
+				r.RenderImage(cl.img, cl.m)
+			} else {
+				r.RenderPath(cl.path.Copy(), cl.style, cl.m)
+			}
+		})
+		if msg != "" && debugPanics {
+			println("PANIC:", msg)
+		}
 		rp.panics = append(rp.panics, msg)
 		rp.segs = append(rp.segs, append([]byte{}, pdf.VerifC12Content(r)[before:]...))
+		rp.pageOf = append(rp.pageOf, page)
+		rp.cache = append(rp.cache, pdf.VerifC12Cache(r))
 	}
+	rp.pages = append(rp.pages, snapPage(r))
 	rp.all = append([]byte{}, pdf.VerifC12Content(r)...)
 	return rp
 }
@@ -510,6 +600,13 @@ func joinSegs(rp *replay, tokenise func([]byte) ([]string, error)) string {
 func describe(calls []call, grads []canvas.Gradient) []map[string]any {
 	var out []map[string]any
 	for _, cl := range calls {
+		if cl.kind == kImage {
+			out = append(out, map[string]any{"image": fmt.Sprint(cl.img.Bounds().Size()), "m": []float64{cl.m[0][0], cl.m[0][1], cl.m[0][2], cl.m[1][0], cl.m[1][1], cl.m[1][2]}})
+			continue
+		} else if cl.kind == kPage {
+			out = append(out, map[string]any{"newpage": true})
+			continue
+		}
 		s := cl.style
 		out = append(out, map[string]any{
 			"path": cl.path.String(), "data": hc.DataHex(cl.path.Data()), "fill": paintTok(s.Fill, grads), "stroke": paintTok(s.Stroke, grads), "width": s.StrokeWidth,
@@ -522,7 +619,7 @@ func describe(calls []call, grads []canvas.Gradient) []map[string]any {
 }
 
 func run(c *hc.Ctx) {
-	g := &gen{c: c, grads: newGradients(c)}
+	g := &gen{c: c, grads: newGradients(c), imgs: newImages()}
 	nprog := c.N
 	for it := 0; it < nprog; it++ {
 		calls := g.program()
@@ -533,7 +630,13 @@ func run(c *hc.Ctx) {
 		c.Count(fmt.Sprintf("draws:%02d", len(calls)))
 		// a back-end that does not return is a failure with this program as input; the run ends there (the
 		// spinning goroutine cannot be stopped, the process exits after the report is written)
-		rp, rs, rv := timed(func() *replay { return replayPDF(calls) }), timed(func() *replay { return replayPS(calls) }), timed(func() *replay { return replaySVG(calls) })
+		var draws []call // PostScript and SVG: path draws only (one page; their image embedding is not modelled)
+		for _, cl := range calls {
+			if cl.kind == kDraw {
+				draws = append(draws, cl)
+			}
+		}
+		rp, rs, rv := timed(func() *replay { return replayPDF(calls) }), timed(func() *replay { return replayPS(draws) }), timed(func() *replay { return replaySVG(draws) })
 		hung := false
 		for i, r := range []*replay{rp, rs, rv} {
 			if r == nil {
@@ -546,14 +649,14 @@ func run(c *hc.Ctx) {
 			return
 		}
 		c.Case(progLine("PDF", calls, g.grads, pdf.VerifC12Dec), "=", joinSegs(rp, tokenisePDF))
-		c.Case(progLine("PS", calls, g.grads, ps.VerifC12Dec), "=", joinSegs(rs, tokenisePS))
-		c.Case(progLine("SVG", calls, g.grads, svg.VerifC12Dec), "=", joinSegs(rv, tokeniseSVG))
+		c.Case(progLine("PS", draws, g.grads, ps.VerifC12Dec), "=", joinSegs(rs, tokenisePS))
+		c.Case(progLine("SVG", draws, g.grads, svg.VerifC12Dec), "=", joinSegs(rv, tokeniseSVG))
 		if it < 2 {
 			c.Sample("PDF: " + string(rp.all))
 			c.Sample("PS: " + string(rs.all[bytes.LastIndex(rs.all, []byte("def"))+3:]))
 			c.Sample("SVG: " + string(rv.all))
 		}
-		oracle(c, calls, g.grads, rp, rs, rv)
+		oracle(c, calls, draws, g.grads, rp, rs, rv)
 	}
 	probes(c)
 }
